@@ -102,7 +102,9 @@ def dec(spec):
             return spec['unit'] * spec['n']
         if t == 'pow10':
             n = 10 ** spec['n']
-            return ('1' + '0' * spec['n']) if spec.get('str') else n
+            if spec.get('str'):
+                return spec.get('sign', '') + ('0' if spec.get('lead0') else '') + '1' + '0' * spec['n']
+            return n
         if t == 'bytes':
             return bytes.fromhex(spec['hex'])
         raise ValueError('unknown spec %r' % (spec,))
@@ -204,7 +206,14 @@ def eval_intlike(ctx, case, su):
     ctx.case(('intlike', case['cls'], repr(case['val'])[:200], type(v).__name__), case['cls'] != 'canonical-small')
     ctx.h('is_int_like', '%s/%s' % ({True: 'must-True', False: 'must-False', None: 'dont-care'}[want],
                                     case['cls']))
-    got, exc = call(su.is_int_like, v)
+    if case.get('digit_limit') is not None:
+        # the process runs with another int <-> str digit limit (sys.set_int_max_str_digits)
+        from vlib import envmodes
+        ctx.clause('intlike-under-changed-digit-limit')
+        with envmodes.int_max_str_digits(case['digit_limit']):
+            got, exc = call(su.is_int_like, v)
+    else:
+        got, exc = call(su.is_int_like, v)
     detail = {'value': repr(case['val'])[:200], 'type': type(v).__name__, 'got': repr(got), 'exc': exc}
     if exc is not None:
         ctx.clause('intlike-never-raises')
@@ -627,6 +636,15 @@ def int_pool(rng, n):
 
 def intlike_cases(ctx):
     rng = ctx.rng('intlike')
+    # canonical renderings longer than the interpreter's default digit limit, asked with the limit lifted / raised: they
+    # ARE canonical base-10 renderings (under the default limit the conversion itself is refused: DONT-CARE there)
+    for digits in (4299, 4300, 4301, 4302, 5000, 20000):
+        for limit in (0, 100000):
+            for sign in ('', '-'):
+                yield dict(kind='intlike', val={'$': 'pow10', 'n': digits - 1, 'str': True, 'sign': sign}, want=True,
+                           cls='canonical-str-beyond-default-digit-limit', digit_limit=limit)
+                yield dict(kind='intlike', val={'$': 'pow10', 'n': digits - 1, 'str': True, 'sign': sign, 'lead0': True},
+                           want=False, cls='str-leading-zero-beyond-default-digit-limit', digit_limit=limit)
     for n in int_pool(rng, ctx.pick(1500, 80000)):
         small = abs(n) < 100
         yield dict(kind='intlike', val=n, want=True, cls='canonical-small' if small else 'canonical-int')
@@ -843,6 +861,19 @@ def uuid_cases(ctx):
                     kind = 'deco-char' if ch in '-{}' else ('ascii' if ord(ch) < 128 else 'non-ascii')
                     yield dict(kind='uuid', val=text, want=False,
                                cls='reject/foreign-%s@%s/%s' % (kind, pcls, deco))
+    # 32 hex digits with braces INSIDE (braces decorate the ends of a UUID, nothing else): inserted, not replacing a digit
+    for i in range(ctx.pick(40, 600)):
+        h = '%032x' % rng.getrandbits(128)
+        for deco in DECOS:
+            good = spell(h, deco, rng.choice(('lower', 'upper', 'mixed')), rng)
+            digits = [k for k, ch in enumerate(good) if ch in '0123456789abcdefABCDEF'][-32:]    # ('urn:uuid:' has a 'd')
+            lo, hi = digits[0] + 1, digits[-1]
+            if hi - lo < 4:
+                continue
+            a, b = sorted(rng.sample(range(lo, hi), 2))
+            for text in (good[:a] + '{' + good[a:b] + '}' + good[b:], good[:a] + '}' + good[a:], good[:b] + '{' + good[b:],
+                         good[:a] + '{}' + good[a:], good[:a] + '{' + good[a:] + '}'):
+                yield dict(kind='uuid', val=text, want=False, cls='reject/inner-braces/%s' % deco)
     # a valid spelling with something around it that is not a decoration
     for i in range(ctx.pick(60, 800)):
         h = '%032x' % rng.getrandbits(128)
